@@ -23,7 +23,7 @@ type c14Sc struct {
 	// offsets (values around powers of two and other round numbers: window / size-class edges)
 	AlignAt  []int `json:"align_at,omitempty"`
 	AlignSeg int   `json:"align_seg,omitempty"`
-	ViaFS    bool  `json:"via_fs,omitempty"` // templates come from a FileSystemLoader on the simulated disk instead of RegisterString
+	ViaFS    bool  `json:"via_fs,omitempty"`       // templates come from a FileSystemLoader on the simulated disk instead of RegisterString
 	ViaComp  bool  `json:"via_compiled,omitempty"` // templates are compiled and serialised on one engine and reach the rendering engine as bytes
 }
 
